@@ -145,7 +145,7 @@ def main():
             "yaml_merge::main:  Processing file, {}".format(
                 "STDIN" if yaml_file.strip() == "-" else yaml_file))
 
-        proc_state = process_file(log, yaml, yaml_file)
+        proc_state = process_file(log, Parsers.get_yaml_editor(), yaml_file)
 
         if proc_state != 0:
             exit_state = proc_state
